@@ -94,6 +94,73 @@ def run(out, tier):
             out.inconc("%s: %s" % (oid, e))
 
 
+
+# ---- type-directed model of the loop's iterator (so that `enumerate()` counters are decided, not assumed) ------
+def split_generic(ty):
+    """'Enumerate<StepBy<Range<usize>>>' -> ('Enumerate', 'StepBy<Range<usize>>')"""
+    ty = ty.strip()
+    m = re.match(r"^(?:[\w]+::)*(\w+)<(.*)>$", ty)
+    if not m:
+        return ty, None
+    return m.group(1), m.group(2)
+
+
+def tuple_second(ty):
+    """'(usize, T)' -> 'T'"""
+    ty = ty.strip()
+    if not (ty.startswith("(") and ty.endswith(")")):
+        return "?"
+    depth, inner = 0, ty[1:-1]
+    for i, ch in enumerate(inner):
+        depth += ch in "<([" 
+        depth -= ch in ">)]"
+        if ch == "," and depth == 0:
+            return inner[i + 1:].strip()
+    return "?"
+
+
+def it_state(ty, step_const, n=[0]):
+    head, arg = split_generic(ty)
+    n[0] += 1
+    if head == "Enumerate" and arg:
+        return {"k": "enumerate", "count": z3.BitVec("enum_count_%d" % n[0], 64), "inner": it_state(arg, step_const)}
+    if head == "StepBy" and arg:
+        step = z3.BitVecVal(step_const - 1, 64) if step_const else z3.BitVec("step_minus_one_%d" % n[0], 64)
+        return {"k": "stepby", "step_m1": step, "first": None, "inner": it_state(arg, step_const)}
+    return {"k": "leaf", "ty": ty}
+
+
+def it_copy(st):
+    c = dict(st)
+    if "inner" in c:
+        c["inner"] = it_copy(c["inner"])
+    return c
+
+
+def it_advance(ctx, st, k, item_ty, peek):
+    """advance by k items (Iterator::nth(k-1)); returns the item or None; `peek`: no forking, the leaf always yields"""
+    if st["k"] == "enumerate":
+        x = it_advance(ctx, st["inner"], k, tuple_second(item_ty), peek)
+        if x is None:
+            return None
+        i = st["count"] + k - 1
+        st["count"] = i + 1
+        return Agg("(tuple)", {0: Int(i, 64), 1: x})
+    if st["k"] == "stepby":
+        if not (z3.is_bv_value(z3.simplify(k)) and z3.simplify(k).as_long() == 1):
+            raise Unsupported("nth on StepBy")
+        if st["first"] is None:
+            st["first"] = (ctx.choose(2) == 0) if not peek else False
+        k2 = z3.BitVecVal(1, 64) if st["first"] else st["step_m1"] + 1
+        st["first"] = False
+        return it_advance(ctx, st["inner"], k2, item_ty, peek)
+    if peek:
+        return Lazy(item_ty, "peeked-item")
+    if ctx.choose(2) == 0:
+        return None
+    return ctx.fresh(item_ty, "item")
+
+
 def one_site(out, eng, f, poll_bb, oid):
     head = loop_head(f, poll_bb)
     if head is None:
@@ -140,7 +207,31 @@ def one_site(out, eng, f, poll_bb, oid):
     def havoc(ctx, a, ty, c):
         ctx.events.append(("havoc", c))
         return ctx.fresh(ty, "havoc:" + c[-30:])
-    extra = [(r"^<dyn Watchdog as Watchdog>::should_stop$", should_stop), (r"^<dyn Watchdog as Watchdog>::poll_every$", poll_every),
+    step_const = None
+    for b in f.blocks.values():
+        m = re.search(r"as Iterator>::step_by\((?:copy|move) _\d+, const (\d+)_usize\)", b.term or "")
+        if m:
+            step_const = int(m.group(1))
+
+    def it_next(ctx, a, ty, c):
+        m = re.match(r"^<(.*) as Iterator>::next$", c)
+        head, arg = split_generic(m.group(1)) if m else (None, None)
+        if head not in ("Enumerate", "StepBy") or not isinstance(a[0], Ref):
+            return NotImplemented
+        if not hasattr(ctx, "iters"):
+            ctx.iters = {}
+        key = (id(a[0].cell), a[0].path)
+        if key not in ctx.iters:
+            ctx.iters[key] = it_state(m.group(1), step_const, [0])
+            ctx.assume(z3.ULT(ctx.iters[key].get("count", z3.BitVecVal(0, 64)), z3.BitVecVal((1 << 63), 64)))
+        st = ctx.iters[key]
+        om = re.match(r"^(?:[\w:]+::)?Option<(.*)>$", ty.strip())
+        item_ty = om.group(1) if om else "?"
+        x = it_advance(ctx, st, z3.BitVecVal(1, 64), item_ty, False)
+        ctx.events.append(("next", key))
+        from mirsmt.summaries import some, none
+        return none(ty) if x is None else some(ty, x)
+    extra = [(r"^<.* as Iterator>::next$", it_next), (r"^<dyn Watchdog as Watchdog>::should_stop$", should_stop), (r"^<dyn Watchdog as Watchdog>::poll_every$", poll_every),
              # the bookkeeping of the VM main loop is decided under C03 / C17; here it is part of "the work"
              (r"^VM::advance$|^VMThread::consume_gas$|^VM::kill_current_thread$|^Errors::<.*>::add$|^VisitedOpcodes::mark_visited$", havoc)]
     ex = eng.explorer(extra=extra, havoc_unknown=True, max_visits=3, max_seconds=90)
@@ -174,6 +265,7 @@ def one_site(out, eng, f, poll_bb, oid):
     paths = ex.explore(body)
     bad = None
     n_iter = n_stop = 0
+    enum_modelled = enum_unmodelled = 0
     for p in paths:
         ctx = p.ctx
         polls = [e for e in ctx.events if e[0] == "poll"]
@@ -214,6 +306,25 @@ def one_site(out, eng, f, poll_bb, oid):
                 if s.check() == z3.sat:
                     bad = "the counter is not advanced by exactly one per iteration"
                 s.pop()
+            if not explicit_counter and rems_:
+                nexts = [e for e in ctx.events if e[0] == "next"]
+                sts = getattr(ctx, "iters", {})
+                if len(nexts) == 1 and nexts[0][1] in sts:
+                    enum_modelled += 1
+                    nxt = it_advance(ctx, it_copy(sts[nexts[0][1]]), z3.BitVecVal(1, 64), "(usize, ?)", True)
+                    idx = nxt.fields.get(0) if isinstance(nxt, Agg) else None
+                    if not isinstance(idx, Int):
+                        bad = "the loop's iterator yields no enumeration index for the next iteration"
+                    else:
+                        s.push()
+                        for c_ in p.pc:
+                            s.add(c_)
+                        s.add(idx.e != rems_[0][1] + 1)
+                        if s.check() == z3.sat:
+                            bad = "the counter the next iteration will see is not this iteration's counter plus one (the enumeration index does not count iterations)"
+                        s.pop()
+                else:
+                    enum_unmodelled += 1
             if not rems_:
                 bad = "an iteration completes without evaluating the poll condition"
             # a polled iteration continued: the watchdog must have said "go on"
@@ -247,6 +358,8 @@ def one_site(out, eng, f, poll_bb, oid):
             confirmed, rep = native.scenario(out, "unify_polls", {"n": 50, "interval": 10})
         else:
             confirmed, rep = native.scenario(out, "watchdog_sweep", {"interval": 2})
+            if not confirmed and "opcode::" in oid:
+                confirmed, rep = native.scenario(out, "copy_loop_polls", {"iters": 16, "interval": 4})
         if confirmed:
             out.obligation(oid, "mirsmt", "violated", dt, witness=True, note=bad, replay=rep)
             out.violation(C.Violation(key="poll-discipline:%s" % oid, what="%s: %s" % (oid, bad), replay={"engine": "mirsmt", "obligation": oid, "native": rep}))
@@ -257,7 +370,10 @@ def one_site(out, eng, f, poll_bb, oid):
         out.obligation(oid, "mirsmt", "vacuous", dt, witness=False, note="iterations=%d stop paths=%d" % (n_iter, n_stop))
         out.inconc("%s: no completed iteration or no stop path explored (iterations=%d, stops=%d)" % (oid, n_iter, n_stop))
     else:
-        out.obligation(oid, "mirsmt", "holds", dt, witness=True, paths=len(paths), iterations=n_iter, stop_paths=n_stop, head=head)
+        if not explicit_counter and enum_modelled == 0:
+            out.notes.append("%s: the enumerate() counter comes from an iterator type outside the model; P3 rests on the std contract" % oid)
+        out.obligation(oid, "mirsmt", "holds", dt, witness=True, paths=len(paths), iterations=n_iter, stop_paths=n_stop, head=head,
+                       counter="own (+= 1)" if explicit_counter else "enumerate(): %d iterations with the iterator modelled from its type, %d not" % (enum_modelled, enum_unmodelled))
 
 
 def contains_variant(v, name, depth=0):
